@@ -53,5 +53,6 @@ InvCone == Proved => \A p \in Primes : \A d \in Dmaxs(c.n) :
               /\ ThCone(c.n, c.W, d, p)
               /\ RipsDiagramAlg(c.n, DenseGraph(c.n, c.W, MaxWeight(c.W)), d, p) = RipsDiagramAlg(c.n, c.W, d, p)
 InvIsolated == Proved => \A t \in Ts, p \in Primes : \A d \in Dmaxs(c.n) : ThIsolated(c.n, DenseGraph(c.n, c.W, t), d, p)
+InvSingleLinkage == \A t \in Ts, p \in Primes : ThSingleLinkage(c.n, DenseGraph(c.n, c.W, t), p)
 InvDefinitional == ProvedDef => \A t \in Ts, p \in Primes : ThDefinitional(c.n, DenseGraph(c.n, c.W, t), c.n, p)
 =============================================================================
